@@ -206,6 +206,14 @@ func (g *docGen) genSections() map[string]json.RawMessage {
 				r.Coins = sdk.NewCoins(sdk.NewCoin("rowan", sdk.NewInt(int64(1+g.r.Intn(1000)))))
 			}
 		}
+		// a recipient may hold records of the same name and type under different statuses (a completed payment
+		// and a new pending one): make sure the documents contain that
+		if rs := dg.DistributionRecords.DistributionRecords; len(rs) > 0 {
+			c := *rs[g.r.Intn(len(rs))]
+			c.DistributionStatus = disptypes.DistributionStatus(1 + (int(c.DistributionStatus) % 3))
+			c.Coins = sdk.NewCoins(sdk.NewCoin("rowan", sdk.NewInt(int64(1+g.r.Intn(1000)))))
+			dg.DistributionRecords.DistributionRecords = append(rs, &c)
+		}
 		dg.DistributionRecords.DistributionRecords = uniqBy(dg.DistributionRecords.DistributionRecords, func(r *disptypes.DistributionRecord) string {
 			return fmt.Sprintf("%d|%s|%d|%s", r.DistributionStatus, r.DistributionName, r.DistributionType, r.RecipientAddress)
 		})
